@@ -1094,15 +1094,25 @@ fn link_pos(text: &str, rng: &mut Rng) -> (u32, u32) {
     }
 }
 
+/// is this run a long session on one big note? (own stream: all other programs stay what they were)
+pub fn is_heavy(seed: u64, thorough: bool, faults: bool) -> bool {
+    !faults && !Rng::stream(seed, "swarm").chance(1, 100) && Rng::stream(seed, "heavy-session").chance(1, if thorough { 600 } else { 3000 })
+}
+
 pub fn generate(seed: u64, thorough: bool, faults: bool) -> GenOut {
     let mut swarm = Rng::stream(seed, "swarm");
     let mut work = Rng::stream(seed, "workload");
     let (max_notes, min_msgs, max_msgs) = if thorough { (8, 6, 30) } else { (5, 4, 14) };
     let big_library = swarm.chance(1, 100);
     let n_notes = if big_library { swarm.range(40, 120) } else { swarm.range(1, max_notes) };
+    let n_notes = if is_heavy(seed, thorough, faults) { n_notes.max(2) } else { n_notes };
     let with_dirs = swarm.chance(1, 4);
     let refs_ext = if swarm.chance(1, 5) { ".md" } else { "" }.to_string();
-    let n_msgs = swarm.range(min_msgs, max_msgs);
+    // a long session on one big note (C11 only): hundreds of edits of a note of several hundred blocks, a few
+    // requests in between - thresholds in the arena, recursion guards and size limits are then crossed *through
+    // the router*, with workers alive. Drawn from its own stream so that all other programs stay what they were.
+    let heavy = !big_library && is_heavy(seed, thorough, faults);
+    let n_msgs = if heavy { swarm.range(300, 360) } else { swarm.range(min_msgs, max_msgs) };
     let client_name = if swarm.chance(1, 5) { "helix" } else { "" }.to_string();
     let config = match swarm.below(12) {
         0..=2 => "models",
@@ -1112,12 +1122,14 @@ pub fn generate(seed: u64, thorough: bool, faults: bool) -> GenOut {
     .to_string();
     let (policy_name, policy) = *swarm.pick(POLICIES);
     let change_w = *swarm.pick(&[15u32, 30, 50]);
+    let change_w = if heavy { 700 } else { change_w };
     // swarm: which fault kinds are enabled in this run
     let enabled_faults: Vec<&str> = if faults { FAULTS.iter().filter(|_| swarm.chance(1, 3)).cloned().collect() } else { vec![] };
     let fault_pct = if enabled_faults.is_empty() { 0 } else { *swarm.pick(&[15u32, 30, 50]) };
 
-    let key_flavour = if swarm.chance(1, 3) { 1 } else { 0 };
-    let disk = swarm.chance(1, 8);
+    // (a long session always ends with the idle-equals-fresh battery, which needs plain names and no disk)
+    let key_flavour = if swarm.chance(1, 3) && !heavy { 1 } else { 0 };
+    let disk = swarm.chance(1, 8) && !heavy;
     let big_doc_bytes = if swarm.chance(1, 25) { *swarm.pick(&[9_000usize, 70_000, 140_000]) } else { 0 };
     let version_mode = swarm.below(3); // 0: constant 1, 1: increasing, 2: increasing with restarts after close/open
     let all_keys = gen::rich_key_pool(n_notes + 2, with_dirs, key_flavour, &mut work);
@@ -1143,13 +1155,29 @@ pub fn generate(seed: u64, thorough: bool, faults: bool) -> GenOut {
         texts.insert("prompt-a".into(), gen::render("prompt-a", &d));
         docs.insert("prompt-a".into(), d);
     }
+    if heavy {
+        if let Some(k) = lib_keys.first() {
+            let mut blocks = vec![gen::Block::Heading { level: 1, inl: vec![gen::Inline::Word("big".into())], setext: false }];
+            let mut g = Gen { rng: &mut work, cfg: &cfg };
+            blocks.push(g.table());
+            for i in 0..g.rng.range(230, 400) {
+                blocks.push(if i % 17 == 5 { g.block_ref() } else { gen::Block::Para(vec![g.inlines(20)]) });
+            }
+            // links behind everything else: they are indexed only if indexing reaches the end of a long note
+            blocks.push(gen::Block::Para(vec![vec![gen::Inline::Word("see".into()), gen::Inline::Link { text: "tail".into(), key: lib_keys[1].clone(), ext: false }]]));
+            blocks.push(gen::Block::BlockRef { text: "tail".into(), key: lib_keys[1].clone(), ext: false });
+            let d = Doc { front: None, blocks, trailing_newline: true, bom: false };
+            texts.insert(k.clone(), gen::render(k, &d));
+            docs.insert(k.clone(), d);
+        }
+    }
     let library = texts.clone();
     let mut steps: Vec<Step> = vec![];
     let mut version = 0;
     let mut ended = false;
     while steps.len() < n_msgs && !ended {
         let keys: Vec<String> = docs.keys().cloned().collect();
-        let key = work.pick(&keys).clone();
+        let key = if heavy && work.chance(4, 5) { lib_keys[0].clone() } else { work.pick(&keys).clone() };
         let text = texts[&key].clone();
         // fault?
         if fault_pct > 0 && work.chance(fault_pct, 100) {
@@ -1308,7 +1336,11 @@ pub fn generate(seed: u64, thorough: bool, faults: bool) -> GenOut {
                     (k, "new_note".to_string())
                 } else {
                     let mut g = Gen { rng: &mut work, cfg: &cfg };
-                    let m = g.rng.below(gen::MUTATIONS.len());
+                    let mut m = g.rng.below(gen::MUTATIONS.len());
+                    // a long session stays on a big note: no wholesale replacement or emptying
+                    while heavy && ["fresh_document", "empty_note"].contains(&gen::MUTATIONS[m]) {
+                        m = g.rng.below(gen::MUTATIONS.len());
+                    }
                     let d = docs.get_mut(&key).unwrap();
                     let name = gen::mutate(&mut g, d, m, &vtok);
                     (key.clone(), name.to_string())
@@ -1353,6 +1385,12 @@ pub fn generate(seed: u64, thorough: bool, faults: bool) -> GenOut {
                         }
                     };
                     steps.push(Step::Notify { method: "textDocument/didChange".into(), params: json!({"textDocument": {"uri": uri_str(&k), "version": ver}, "contentChanges": [{"text": t}]}), class });
+                }
+                if heavy && work.chance(1, 2) {
+                    // "any request issued after a notification is answered from a state that includes it": with
+                    // full-text edits the next edit repairs a lost one, so a lost edit shows only in between
+                    let m = *work.pick(&["textDocument/formatting", "textDocument/formatting", "textDocument/inlayHint", "textDocument/documentSymbol"]);
+                    steps.push(Step::Request { method: m.into(), params: req_params(m, &uri_str(&k), 0, 0), fault: String::new(), id: None });
                 }
             }
             2 => {
@@ -1427,7 +1465,7 @@ pub fn generate(seed: u64, thorough: bool, faults: bool) -> GenOut {
             }
         }
     }
-    let final_battery = swarm.chance(1, 4);
+    let final_battery = swarm.chance(1, 4) || heavy;
     let program = Program { refs_ext, client_name, config, library, steps, final_probe: true, disk, final_battery };
     GenOut { program, policy_name, policy }
 }
